@@ -179,6 +179,11 @@ func (w *World) prepareDir() error {
 	return os.WriteFile(filepath.Join(w.Dir, "profile.yaotl"), []byte(w.Cfg.Profile()), 0644)
 }
 
+// RewriteProfile writes the (changed) configuration as the profile the next Boot loads.
+func (w *World) RewriteProfile() error {
+	return os.WriteFile(filepath.Join(w.Dir, "profile.yaotl"), []byte(w.Cfg.Profile()), 0644)
+}
+
 // Boot starts a teamserver process image on the world's directory.  It mirrors the RunE
 // prologue of cmd/server.go, then runs the real Teamserver.Start() as task ts-main.
 func (w *World) Boot() error {
